@@ -58,6 +58,22 @@ CLAIMED["C01"] = ("Server", "TLA+ model of the server's goroutines, locks (incl.
 CLAIMED["C16"] = ("Server", "same model: BufferSafe, LockDiscipline, the lease invariants and SerialEquivalent4/6 hold in every interleaving (TLC); the weakened models (lock per IA_PD, panic without unlock) fail and their counterexample schedules are imposed on the real code through the observation points; 16-goroutine runs of full chains on the -race build with concurrent lease-file rewrites are linearized by in-lock observation points and validated by RangeTrace/PrefixTrace/AllocTrace/ServerTrace under lens C16",
    "Serial equivalence and lock discipline are exhaustive in the model (3 datagrams, nearly exhausted pools, one reload); on the real code interleavings are sampled (plus deterministic exclusion probes and the imposed schedule); data-race freedom only as far as the race detector observes these executions.", _SRV_NOTE, "DESIGN.md section 3 C01/C16")
 NOT_YET = {}
+# what later rounds of strengthening added to a property's check (appended to the level text)
+EXTRA = {
+ "C01": " Also on the REAL receive loops: server.Start on loopback UDP sockets, empty / 1-byte / truncated / junk / 60000-byte datagrams each followed by a request that must be answered (Lifecycle.tla: Datagram, ServesWhileOpen; LifecycleTrace under lens C01); clients that remember what they were told come back (conversations); the full chains also run as long-lived processes with liveness probes the chain cannot but answer.",
+ "C13": " Start-up order on the real server.Start: a slow (and a slow, failing) plugin setup under a stream of SOLICITs over a real socket - no answer from anything but the configured chain (Lifecycle.tla: Load before Open, NeverServesBare, FailedLoadNeverListened; LifecycleTrace under lens C13); every process first handles 300 requests whose chain ends early.",
+ "C02": " Plus histories with one window of a foreign write transaction on the lease database (transient storage fault), and whole chains (Conv.tla / ConvTrace.tla under lens C02: dynamic clients behind server_id, file, lease_time and option plugins, incl. conversations TLC generated from ConvGen).",
+ "C03": " Plus histories with one window of a foreign write transaction on the lease database: what is handed out after the window must be restored (RangeTrace: fault, nobind, noexp).",
+ "C10": " Requests carry client identifier options naming other hardware addresses; whole chains (Conv.tla / ConvTrace.tla under lens C10: a listed client gets its address and the chain ends there).",
+ "C14": " The tables run several times over in one process; whole chains (ConvTrace under lens C14).",
+ "C17": " Set-ups in both protocol sections of one process (table-dual), shuffled request lists; whole chains (ConvTrace under lens C17: options of exactly the plugins that ran, default lease time only when none is set).",
+ "C08": " Long-running instances (a holder asks again after a neighbour renewed g times, g swept across 256 and, thorough, 65536; 300 clients on one pool), sibling client identifiers on one hardware address, hints with length bytes > 128 and shorter than the pool's.",
+ "C09": " Long-running instances (a holder asks again after a neighbour renewed g times, g swept across 256 and, thorough, 65536).",
+ "C12": " Every process first handles 300 requests whose chain ends early, then requests that must be answered; Interface-IDs of 0..6 bytes.",
+ "C15": " The interface a link-level frame is handed to and its source address are compared; an extra arrival interface with index ifB+256 is created for the run when the sandbox allows it.",
+ "C18": " Ports with leading zeros, Go-literal spellings and values beyond 65535.",
+ "C19": " Valid range configurations run into exhaustion; lease databases with unreadable rows / the older schema / not a database.",
+}
 
 def main():
     props = [json.loads(l) for l in open(os.path.join(V, "properties.jsonl"))]
@@ -68,6 +84,7 @@ def main():
         i = p["id"]
         if i in CLAIMED:
             eng, tech, text, note, ref = CLAIMED[i]
+            text = text + EXTRA.get(i, "")
             checks.append({
                 "property_id": i,
                 "quick_cmd": "./check %s --tier quick" % i,
